@@ -3,7 +3,7 @@ CONSTANTS
   Cfgs <- MCCfgs
   Dials <- MCDials
   Parts = {"reply", "url", "hdr", "hist"}
-  MaxDev = 99
+  MaxDev = 4
 CONSTRAINT Emit
 INVARIANTS InvRefines InvConnOnlyIfProven InvBadReplyIsBadHandshake InvRefusedBeforeNetwork InvKeyFresh InvFailureCloses InvSuccessOpenNoDeadline InvEveryOpUnderDeadline InvFirstHopHook
 CHECK_DEADLOCK FALSE
